@@ -125,6 +125,43 @@ pub fn check_stream(ctx: &Ctx, bytes: &[u8], expect: &[u8], what: &str, with_xz:
     }
 }
 
+/// A literal-only program (lc = lp = pb = 0) whose range-coded payload is exactly `want` bytes long (65536 is the largest
+/// compressed size an LZMA2 chunk can declare). Deterministic search on the reference encoder.
+pub fn literal_program_with_packed_size(want: usize) -> Option<Vec<Sym>> {
+    let gen = |n: usize, salt: u32| -> Vec<Sym> { (0..n as u32).map(|i| Sym::L((i.wrapping_add(salt).wrapping_mul(2654435761) >> 13) as u8)).collect() };
+    let plen = |q: &Vec<Sym>| crate::refmodel::enc::encode(0, 0, 0, u64::MAX, q).payload.len();
+    // coarse approach, then literal by literal, then vary the last literals
+    let mut n = 60000usize;
+    loop {
+        let len = plen(&gen(n, 0));
+        if len + 64 >= want {
+            break;
+        }
+        n += (want - len) * 9 / 10;
+    }
+    for m in n..n + 400 {
+        let base = gen(m, 0);
+        let len = plen(&base);
+        if len == want {
+            return Some(base);
+        }
+        if len > want {
+            for back in 1..=3usize {
+                for v in 0..=255u8 {
+                    let mut q = gen(m - back, 0);
+                    let l = q.len();
+                    q[l - 1] = Sym::L(v);
+                    if plen(&q) == want {
+                        return Some(q);
+                    }
+                }
+            }
+            return None;
+        }
+    }
+    None
+}
+
 pub fn run(tier: Tier) -> i32 {
     let ctx = Ctx::new("C02", "model_checking", tier);
     ctx.set_rule("E1 over chunk programs: every sequence of <= d chunk kinds (uncompressed with/without dictionary reset; LZMA chunks of reset class 0-3 x properties x small symbol programs that are only decodable if state, rep distances, probabilities and dictionary were carried or reset correctly) is serialised by the reference LZMA2 writer; well-formed sequences (liblzma's rules) are decoded by lzma2_decompress, raw::Lzma2Decoder and xz_decompress (wrapped by the reference XZ writer). A state is a chunk-sequence prefix, a transition appends one chunk. distinct_nontrivial = well-formed sequences in which a chunk without full reset follows another chunk (carry-over exercised).");
@@ -218,7 +255,7 @@ pub fn run(tier: Tier) -> i32 {
             cases.push(("two 1-byte chunks".into(), vec![Chunk::U { reset: true, data: vec![1] }, Chunk::C { class: 3, props: (3, 0, 2), prog: vec![Sym::L(2)] }]));
             // long chains of state resets inside one stream (counters that wrap between two uses of a literal context):
             // a chunk using high literal contexts, then c-1 state-reset chunks that avoid them, then one that uses them again
-            for c in [255usize, 256, 257, 512] {
+            for c in tier.pick(vec![255usize, 256, 257, 512, 65535, 65536, 65537], vec![255usize, 256, 257, 512, 65535, 65536, 65537, 131072]) {
                 let hi: Vec<Sym> = (0..40u32).map(|i| Sym::L(0xE0 + ((i * 7) % 32) as u8)).chain([Sym::M(3, 5), Sym::L(0xFF)]).collect();
                 let hi2: Vec<Sym> = (0..30u32).map(|i| Sym::L(0xE1 + ((i * 11) % 30) as u8)).chain([Sym::M(7, 9), Sym::L(0xF0), Sym::S]).collect();
                 let lo: Vec<Sym> = (0..6u32).map(|i| Sym::L(((i * 5) % 32) as u8)).collect();
@@ -228,6 +265,31 @@ pub fn run(tier: Tier) -> i32 {
                 }
                 cs.push(Chunk::C { class: 1, props: (3, 0, 2), prog: hi2 });
                 cases.push((format!("chain of {} state-reset chunks between two chunks that use the same literal contexts", c - 1), cs));
+            }
+            // very many chunks in one stream (chunk counters, accumulated offsets beyond 2^16 / 2^24)
+            for nchunks in tier.pick(vec![70_000usize], vec![70_000usize, 300_000]) {
+                let mut cs: Vec<Chunk> = Vec::with_capacity(nchunks);
+                for k in 0..nchunks {
+                    if k % 1000 == 999 {
+                        cs.push(Chunk::C { class: if k == 999 { 2 } else if k % 3000 == 2999 { 3 } else { 0 }, props: (3, 0, 2), prog: vec![Sym::L((k / 7) as u8), Sym::S] });
+                    } else if k % 3000 == 0 && k > 0 {
+                        cs.push(Chunk::C { class: 2, props: (3, 0, 2), prog: vec![Sym::L(k as u8)] });
+                    } else {
+                        cs.push(Chunk::U { reset: k == 0, data: vec![(k * 31 + 7) as u8; 1 + k % 3] });
+                    }
+                }
+                cases.push((format!("{} chunks of 1-3 bytes", nchunks), cs));
+            }
+            // megabytes of output in one dictionary, then a dictionary reset in mid-stream, then more data (short and long)
+            for (mib, tail) in tier.pick(vec![(5usize, 3usize), (5, 6_000_000)], vec![(5usize, 3usize), (5, 6_000_000), (17, 70_000), (3, 5_000_000)]) {
+                let blob: Vec<u8> = (0..(mib << 20) as u32).map(|i| (i.wrapping_mul(2246822519) >> 21) as u8).collect();
+                let mut cs: Vec<Chunk> = blob.chunks(65536).enumerate().map(|(k, c)| Chunk::U { reset: k == 0, data: c.to_vec() }).collect();
+                let t: Vec<u8> = (0..tail as u32).map(|i| (i.wrapping_mul(40503) >> 7) as u8).collect();
+                for (k, c) in t.chunks(65536).enumerate() {
+                    cs.push(Chunk::U { reset: k == 0, data: c.to_vec() });
+                }
+                cs.push(Chunk::C { class: 2, props: (3, 0, 2), prog: vec![Sym::M(2, 40), Sym::L(9)] });
+                cases.push((format!("{} MiB in one dictionary, dictionary reset, {} more bytes", mib, tail), cs));
             }
             // compressed chunk with unpacked size exactly 2^21
             let mut p = vec![Sym::L(0x55)];
@@ -264,41 +326,7 @@ pub fn run(tier: Tier) -> i32 {
             }
             // packed size exactly 2^16 and 2^16 - 1 (the largest encodable compressed size): searched for
             for want in [65536usize, 65535] {
-                let gen = |n: usize, salt: u32| -> Vec<Sym> { (0..n as u32).map(|i| Sym::L((i.wrapping_add(salt).wrapping_mul(2654435761) >> 13) as u8)).collect() };
-                let plen = |q: &Vec<Sym>| crate::refmodel::enc::encode(0, 0, 0, u64::MAX, q).payload.len();
-                let mut found = None;
-                // coarse approach, then literal by literal, then vary the last literals
-                let mut n = 60000usize;
-                loop {
-                    let len = plen(&gen(n, 0));
-                    if len + 64 >= want {
-                        break;
-                    }
-                    n += (want - len) * 9 / 10;
-                }
-                'search: for m in n..n + 400 {
-                    let base = gen(m, 0);
-                    let len = plen(&base);
-                    if len == want {
-                        found = Some(base);
-                        break;
-                    }
-                    if len > want {
-                        for back in 1..=3usize {
-                            for v in 0..=255u8 {
-                                let mut q = gen(m - back, 0);
-                                let l = q.len();
-                                q[l - 1] = Sym::L(v);
-                                if plen(&q) == want {
-                                    found = Some(q);
-                                    break 'search;
-                                }
-                            }
-                        }
-                        break;
-                    }
-                }
-                match found {
+                match literal_program_with_packed_size(want) {
                     Some(q) => cases.push((format!("LZMA chunk with compressed size exactly {}", want), vec![Chunk::C { class: 3, props: (0, 0, 0), prog: q }])),
                     None => ctx.machinery_error(&format!("could not construct a chunk with compressed size exactly {}", want)),
                 }
